@@ -459,7 +459,7 @@ std::vector<Token> get_replacement(
         break;
       }
       case Theo::Token::TEMP_VAL: {
-        std::string text = cand.text + ":" + cand.file + ":" +
+        std::string text = cand.text + ":" + def.replacement[0].file + ":" +
                            std::to_string(def.replacement[0].line) + "_(M" +
                            std::to_string(pass) + ")";
         Token next = cand;
